@@ -339,6 +339,17 @@ fn loop_main(sched: Arc<Sched>, scn: Value, tx: mpsc::Sender<Handles>, ctl: Arc<
                     Err(_) => r = "err".into(),
                 }
             }
+            "block_on_timeout" => {
+                // block_on(TimeoutFuture): the future is woken by the timer source it inserted into this loop
+                let ms = op["need"].as_u64().unwrap_or(10);
+                let t0 = Instant::now();
+                let fut = calloop::timer::TimeoutFuture::from_duration(&handle, Duration::from_millis(ms));
+                match el.block_on(fut, &mut (), |_| ev("iter", json!({"n": 0}))) {
+                    Ok(Some(())) => extra = json!({"out": 0, "elapsed_us": t0.elapsed().as_micros() as u64}),
+                    Ok(None) => extra = json!({"out": -1, "elapsed_us": t0.elapsed().as_micros() as u64}),
+                    Err(_) => r = "err".into(),
+                }
+            }
             "idle_wait" => {
                 // nothing is pending any more: a timed dispatch must block for its whole timeout
                 let t0 = Instant::now();
